@@ -1191,10 +1191,11 @@ convert_to_object_bitfield(char *data, CFieldObject *cf)
         PY_LONG_LONG result;
 
         value = (unsigned PY_LONG_LONG)read_raw_signed_data(data, ct->ct_size);
-        valuemask = (1ULL << cf->cf_bitsize) - 1ULL;
         shiftforsign = 1ULL << (cf->cf_bitsize - 1);
+        /* not '1ULL << cf_bitsize': the field can be 64 bits wide */
+        valuemask = (shiftforsign << 1) - 1ULL;
         value = ((value >> cf->cf_bitshift) + shiftforsign) & valuemask;
-        result = ((PY_LONG_LONG)value) - (PY_LONG_LONG)shiftforsign;
+        result = (PY_LONG_LONG)(value - shiftforsign);
 
         if (ct->ct_flags & CT_PRIMITIVE_FITS_LONG)
             return PyLong_FromLong((long)result);
@@ -1205,7 +1206,7 @@ convert_to_object_bitfield(char *data, CFieldObject *cf)
         unsigned PY_LONG_LONG value, valuemask;
 
         value = read_raw_unsigned_data(data, ct->ct_size);
-        valuemask = (1ULL << cf->cf_bitsize) - 1ULL;
+        valuemask = ((1ULL << (cf->cf_bitsize - 1)) << 1) - 1ULL;
         value = (value >> cf->cf_bitshift) & valuemask;
 
         if (ct->ct_flags & CT_PRIMITIVE_FITS_LONG)
@@ -1815,14 +1816,28 @@ static int
 convert_from_object_bitfield(char *data, CFieldObject *cf, PyObject *init)
 {
     CTypeDescrObject *ct = cf->cf_type;
-    PY_LONG_LONG fmin, fmax, value = PyLong_AsLongLong(init);
+    PY_LONG_LONG fmin, fmax, value;
     unsigned PY_LONG_LONG rawfielddata, rawvalue, rawmask;
+
+    if (!(ct->ct_flags & CT_PRIMITIVE_SIGNED) &&
+            cf->cf_bitsize == 8 * (int)sizeof(PY_LONG_LONG)) {
+        /* an unsigned field as wide as 'unsigned long long': its range
+           does not fit the signed computations below */
+        rawvalue = _my_PyLong_AsUnsignedLongLong(init, 1);
+        if (rawvalue == (unsigned PY_LONG_LONG)-1 && PyErr_Occurred())
+            return -1;
+        write_raw_integer_data(data, rawvalue, ct->ct_size);
+        return 0;
+    }
+
+    value = PyLong_AsLongLong(init);
     if (value == -1 && PyErr_Occurred())
         return -1;
 
     if (ct->ct_flags & CT_PRIMITIVE_SIGNED) {
-        fmin = -(1LL << (cf->cf_bitsize-1));
-        fmax = (1LL << (cf->cf_bitsize-1)) - 1LL;
+        /* written so that a 64-bit wide field does not overflow */
+        fmax = (PY_LONG_LONG)((1ULL << (cf->cf_bitsize-1)) - 1ULL);
+        fmin = -fmax - 1LL;
         if (fmax == 0)
             fmax = 1;    /* special case to let "int x:1" receive "1" */
     }
@@ -1859,7 +1874,7 @@ convert_from_object_bitfield(char *data, CFieldObject *cf, PyObject *init)
         return -1;
     }
 
-    rawmask = ((1ULL << cf->cf_bitsize) - 1ULL) << cf->cf_bitshift;
+    rawmask = (((1ULL << (cf->cf_bitsize-1)) << 1) - 1ULL) << cf->cf_bitshift;
     rawvalue = ((unsigned PY_LONG_LONG)value) << cf->cf_bitshift;
     /*WRITE(data, ct->ct_size)*/
     rawfielddata = read_raw_unsigned_data(data, ct->ct_size);
